@@ -482,29 +482,56 @@ def r5_tracers(ctx, sym):
         ctx.analysed_function(exit_[0].module, xfn)
         sets = [c for c in calls(efn) if call_name(c) == 'sys.settrace']
         if not sets:
+            # a tracer that never installs a trace function itself (none / coverage): its __exit__ must not set one
             xs = [c for c in calls(xfn) if call_name(c) == 'sys.settrace']
             ctx.check(not xs, 'R5', key, tmod, xfn,
                       "__exit__ sets a trace function that __enter__ never saved", "trace function clobbered")
             continue
-        saved = [n for n in body_walk(efn) if isinstance(n, ast.Assign) and isinstance(n.value, ast.Call)
-                 and call_name(n.value) == 'sys.gettrace' and is_self_attr(n.targets[0])]
-        ok = bool(saved)
-        why = "__enter__ installs a trace function without saving the previous one"
-        if ok:
-            attr = saved[0].targets[0].attr
-            # save precedes set (statement order in a straight-line body)
-            order = [n for n in efn.body if n is saved[0] or any(c in sets for c in ast.walk(n)
-                                                                   if isinstance(c, ast.Call))]
-            ok = order and order[0] is saved[0]
-            why = "__enter__ reads sys.gettrace() after replacing it"
-            if ok:
-                g = CFG(xfn)
-                restore = g.nodes_calling(lambda c: call_name(c) == 'sys.settrace' and len(c.args) == 1
-                                          and is_self_attr(c.args[0], attr))
-                ok = bool(restore) and g.exit.id not in g.reachable([g.entry], restore)
-                why = "__exit__ does not call sys.settrace(self.%s) on every path" % attr
-        ctx.check(ok, 'R5', key, enter[0].module, xfn if 'exit' in why else efn, why,
-                  "run() with tracer_style=%r: sys.gettrace() after the call differs from before" % style)
+        # __enter__/__exit__ executed abstractly against a model of sys.gettrace/sys.settrace, entered once and
+        # entered again while active (student code importing another submission file re-enters the same tracer)
+        from .. import symexec
+        from ..fdeval import Obj, Raised as _Raised, Inconclusive
+        for seq_name, seq in (('single', 'EX'), ('re-entered', 'EEXX'), ('re-entered-twice', 'EEEXXX'),
+                              ('sequential', 'EXEX'), ('left-by-an-exception', 'EY'),
+                              ('re-entered-inner-left-by-an-exception', 'EEYX')):
+            original = symexec.marker('the-trace-function-installed-before')
+            cell = {'trace': original}
+            me = symexec.self_obj(tmod, str(cls_name))
+            symexec.method(me, 'reset', lambda *a, **k: None)
+            sup = Obj('super')
+            symexec.method(sup, '__init__', lambda *a, **k: None)
+            fd = symexec.new_fd(sym, tmod, calls={
+                'sys.gettrace': lambda: cell['trace'],
+                'sys.settrace': lambda f: cell.__setitem__('trace', f),
+                'super': lambda *a: sup, 'isinstance': lambda o, t: False}, extra={'BdbQuit': 'BdbQuit'})
+            init = sym.method(ci, '__init__')
+            try:
+                if init is not None:
+                    fd.call_function(init[1], [], bound_self=me)
+                depth = 0
+                inside_ok = True
+                for step in seq:
+                    if step == 'E':
+                        fd.call_function(efn, [], bound_self=me)
+                        depth += 1
+                    else:
+                        fd.call_function(xfn, [None, None, None] if step == 'X' else
+                                         [ValueError, Obj('student-exception', exc_kind='ValueError'), Obj('traceback')],
+                                         bound_self=me)
+                        depth -= 1
+                        if depth > 0 and sets and cell['trace'] is original:
+                            inside_ok = False   # the outer execution is still running: it must still be traced
+                restored = cell['trace'] is original
+            except _Raised as e:
+                restored, inside_ok = False, True
+                cell['trace'] = 'raises %s' % e.kind
+            except Inconclusive as e:
+                raise AnalysisError("C05 R5: tracer %s outside the decidable fragment: %s" % (cls_name, e))
+            ctx.check(restored, 'R5', key + ':' + seq_name, enter[0].module, xfn,
+                      "after the tracer was %s (%s) sys.gettrace() is %r, not the function that was installed before" % (
+                          seq_name, seq, cell['trace']),
+                      "run() with tracer_style=%r on student code that imports another submission file: the sandbox's "
+                      "trace function stays installed for the rest of the process" % style)
     # execution sites use the tracer only through `with`
     smod = ctx.repo.module(SANDBOX)
     n = 0
